@@ -319,8 +319,11 @@ func (t *Header) Decode(d *Decoder) error {
 		return err
 	}
 
-	epochMarkPointerFlag, err := d.ReadPointerFlag()
-	epochMarkPointerIsNil := epochMarkPointerFlag == 0
+	hasEpochMark, err := d.ReadOptionFlag()
+	if err != nil {
+		return err
+	}
+	epochMarkPointerIsNil := !hasEpochMark
 	if epochMarkPointerIsNil {
 		cLog(Yellow, "EpochMark is nil")
 	} else {
@@ -334,8 +337,11 @@ func (t *Header) Decode(d *Decoder) error {
 		}
 	}
 
-	ticketsMarkPointerFlag, err := d.ReadPointerFlag()
-	ticketsMarkPointerIsNil := ticketsMarkPointerFlag == 0
+	hasTicketsMark, err := d.ReadOptionFlag()
+	if err != nil {
+		return err
+	}
+	ticketsMarkPointerIsNil := !hasTicketsMark
 	if ticketsMarkPointerIsNil {
 		cLog(Yellow, "TicketsMark is nil")
 	} else {
@@ -1996,6 +2002,9 @@ func (t *TicketsOrKeys) Decode(d *Decoder) error {
 	// Otherwise, it means Tickets is not nil
 
 	firstByte, err := d.ReadPointerFlag()
+	if err != nil {
+		return err
+	}
 	isTickets := firstByte == 0
 	isKeys := firstByte == 1
 
@@ -2027,7 +2036,7 @@ func (t *TicketsOrKeys) Decode(d *Decoder) error {
 		return nil
 	}
 
-	return nil
+	return fmt.Errorf("invalid TicketsOrKeys discriminator %d", firstByte)
 }
 
 // BandersnatchRingCommitment
@@ -2068,12 +2077,12 @@ func (a *AvailabilityAssignments) Decode(d *Decoder) error {
 	cLog(Cyan, "Decoding AvailabilityAssignments")
 
 	for i := 0; i < CoresCount; i++ {
-		pointerFlag, err := d.ReadPointerFlag()
+		present, err := d.ReadOptionFlag()
 		if err != nil {
 			return err
 		}
 
-		pointerIsNil := pointerFlag == 0
+		pointerIsNil := !present
 		if pointerIsNil {
 			cLog(Yellow, "AvailabilityAssignmentsItem is nil")
 			item := (*AvailabilityAssignment)(nil)
@@ -2115,11 +2124,11 @@ func (m *Mmr) Decode(d *Decoder) error {
 	peaks := make([]MmrPeak, length)
 	for i := uint64(0); i < length; i++ {
 		// check pointer flag
-		pointerFlag, err := d.ReadPointerFlag()
+		present, err := d.ReadOptionFlag()
 		if err != nil {
 			return err
 		}
-		pointerIsNil := pointerFlag == 0
+		pointerIsNil := !present
 		if pointerIsNil {
 			cLog(Yellow, "MmrPeak is nil")
 		}
@@ -3213,11 +3222,11 @@ func (b *BoundaryNode) Decode(d *Decoder) error {
 	if err := binary.Read(d.buf, binary.LittleEndian, &b.Hash); err != nil {
 		return err
 	}
-	parentFlag, err := d.ReadPointerFlag()
+	hasParent, err := d.ReadOptionFlag()
 	if err != nil {
 		return err
 	}
-	if parentFlag == 0 {
+	if !hasParent {
 		b.Parent = nil
 	} else {
 		b.Parent = &StateKey{}
